@@ -54,9 +54,9 @@ type Pool struct {
 	bufs [simdrv.MaxTasks][]Event
 
 	// cancellation plan: cancel() is invoked just before the CancelAt-th call (0-based); -1 = never
-	CancelAt  int
+	CancelAt int
 	// Points lists, per pool call, its kind ("begin", "tx-exec", "commit", …)
-	Points []string
+	Points    []string
 	Cancel    context.CancelFunc
 	calls     int
 	CancelSeq int64 // event sequence number at which the cancellation happened (0 = did not happen)
